@@ -337,6 +337,15 @@ def build(spec):
         elif ex == "dup_eval":
             # evaluate again where the function was already evaluated (same decomposition, another object)
             target.oracle(1 * x0)
+        elif ex == "dup_same":
+            # evaluate again at the very same Point object (a non-differentiable class records a second sample)
+            target.oracle(x0)
+        elif ex == "same_name":
+            # two different points carrying the same name
+            z1, z2 = Point(name="twin"), Point(name="twin")
+            target.oracle(z1)
+            target.oracle(z2)
+            p.add_constraint((z1 - x0) ** 2 + (z2 - x0) ** 2 <= 1)
         elif ex == "contradiction":
             p.add_constraint(d0 <= -1)
         elif ex == "many":
